@@ -24,7 +24,7 @@ RULE = ("seeded simple loop-free graphs with 1..9 vertices (thorough ..11) incl.
         "max_size in {0,2,3,4,5}; 1-3 consecutive covers on the same graph object, in 40% of runs with edges moved in between "
         "(vertex and edge counts unchanged); shuffle schedules uniform/identity/reverse/"
         "rotation/adjacent swaps; aborts mid-shuffle then a new cover; non-trivial = graph has >= 2 edges; distinct = "
-        "distinct execution digests; 0.4% of runs: a complete graph of 12-16 vertices plus a pendant edge; thorough tier only: one "
+        "distinct execution digests; run indexes 1000-2251 walk through EVERY graph with an edge on up to 7 vertices (graph atlas); 0.4% of runs: a complete graph of 12-16 vertices plus a pendant edge; thorough tier only: one "
         "cycle of 6e5 vertices (more than a million trivial cliques) and one 21-/22-clique with a triangle and a pendant edge "
         "attached (2-4 million nested cliques, limit 0 / 100 / 2^31) per invocation; both tiers: one graph of more than 2^20 vertices (almost all isolated, small "
         "cliques at low positions, beyond 2^20 and across, incl. pairs that alias under a 20-bit packing of positions)")
@@ -94,8 +94,19 @@ def generate(prng, tier, index):
         return {"variant": "clean", "nodes": None, "edges": None, "manyverts": 2 ** 20 + prng.randrange(140, 200),
                 "limits": [prng.choice((0, 3, 4))], "policy": {"shuffle": [prng.choice(("uniform", "identity", "reverse"))]},
                 "attrs": False, "scale": True, "place_seed": prng.randrange(2 ** 31)}
-    nodes, es = gen_graph(prng, tier == "thorough")
-    if prng.random() < 0.004:
+    at = interesting.atlas_graph(index - interesting.ATLAS_FROM)
+    if at is not None:
+        # catalogue completeness: this block of run indexes walks through EVERY graph with an edge on up to 7 vertices
+        # (isolated vertices kept), under scheduler-chosen labels, insertion order, limits and shuffles
+        nv, es0 = at
+        labs = prng.sample(range(0, 40), nv)
+        nodes = list(labs)
+        prng.shuffle(nodes)
+        es = [[labs[a], labs[b]] if prng.random() < 0.5 else [labs[b], labs[a]] for a, b in es0]
+        prng.shuffle(es)
+    else:
+        nodes, es = gen_graph(prng, tier == "thorough")
+    if at is None and prng.random() < 0.004:
         # a complete graph beyond the usual sizes (4e3 - 6.5e4 nested cliques) plus a pendant edge
         k = prng.randrange(12, 17)
         nodes = list(range(k + 1))
